@@ -22,6 +22,7 @@ import (
 	"os"
 	"runtime"
 	"runtime/pprof"
+	"strconv"
 	"strings"
 	"sync"
 	"sync/atomic"
@@ -366,22 +367,40 @@ func oneRun(c *hx.Ctx, k int, r *rand.Rand, proto string, nclients int, stopDuri
 	if leak != "" {
 		fail("goroutine-leak", "a collector goroutine is still alive 3 s after Stop returned", clipS(leak, 3000))
 	}
+	// The deciding probe looks at this process's own sockets (/proc/self/fd against /proc/self/net/*):
+	// a re-bind or dial that fails or succeeds because ANOTHER process picked the same ephemeral port
+	// in the meantime says nothing about the collector (false alarm seen once in 6000 thorough runs).
+	_, portS, _ := net.SplitHostPort(addr)
+	port, _ := strconv.Atoi(portS)
+	held, err := ownSocketOnPort(stream, port)
+	if err != nil {
+		c.Inconclusive("cannot inspect own sockets: " + err.Error())
+	} else if held != "" {
+		if stream {
+			fail("still-listening", "this process still owns a listening TCP socket on the collector's port after Stop returned: "+held, nil)
+		} else {
+			fail("port-not-released", "this process still owns a UDP socket on the collector's port after Stop returned: "+held, nil)
+		}
+	} else {
+		c.Add("own_socket_probes", 1)
+	}
 	if stream {
 		if conn, err := net.DialTimeout("tcp", addr, 2*time.Second); err == nil {
 			conn.Close()
-			fail("still-listening", "the listening socket still accepts connections after Stop returned", nil)
-		}
-		if ln, err := net.Listen("tcp", addr); err != nil {
-			fail("port-not-released", fmt.Sprintf("cannot re-bind %s after Stop: %v", addr, err), nil)
+			c.Add("port_taken_by_other_process", 1)
+		} else if ln, err := net.Listen("tcp", addr); err != nil {
+			c.Add("port_taken_by_other_process", 1)
 		} else {
 			ln.Close()
+			c.Add("rebind_ok", 1)
 		}
 	} else {
 		ua, _ := net.ResolveUDPAddr("udp", addr)
 		if pc, err := net.ListenUDP("udp", ua); err != nil {
-			fail("port-not-released", fmt.Sprintf("cannot re-bind udp %s after Stop: %v", addr, err), nil)
+			c.Add("port_taken_by_other_process", 1)
 		} else {
 			pc.Close()
+			c.Add("rebind_ok", 1)
 		}
 	}
 	c.Add("leak_probes", 1)
@@ -389,6 +408,55 @@ func oneRun(c *hx.Ctx, k int, r *rand.Rand, proto string, nclients int, stopDuri
 		return hx.H64(order)
 	}
 	return 0
+}
+
+// ownSocketOnPort reports a socket of this process bound to the local port: a TCP socket in LISTEN
+// state, or any UDP socket. It returns a description of the socket, or "" if there is none.
+func ownSocketOnPort(stream bool, port int) (string, error) {
+	own := map[string]bool{}
+	ents, err := os.ReadDir("/proc/self/fd")
+	if err != nil {
+		return "", err
+	}
+	for _, e := range ents {
+		l, err := os.Readlink("/proc/self/fd/" + e.Name())
+		if err == nil && strings.HasPrefix(l, "socket:[") {
+			own[strings.TrimSuffix(strings.TrimPrefix(l, "socket:["), "]")] = true
+		}
+	}
+	files := []string{"/proc/self/net/udp", "/proc/self/net/udp6"}
+	if stream {
+		files = []string{"/proc/self/net/tcp", "/proc/self/net/tcp6"}
+	}
+	read := 0
+	for _, f := range files {
+		b, err := os.ReadFile(f)
+		if err != nil {
+			continue
+		}
+		read++
+		for i, ln := range strings.Split(string(b), "\n") {
+			fs := strings.Fields(ln)
+			if i == 0 || len(fs) < 10 {
+				continue
+			}
+			lp := fs[1][strings.LastIndex(fs[1], ":")+1:]
+			p, err := strconv.ParseInt(lp, 16, 32)
+			if err != nil || int(p) != port {
+				continue
+			}
+			if stream && fs[3] != "0A" {
+				continue
+			}
+			if own[fs[9]] {
+				return fmt.Sprintf("%s local=%s state=%s inode=%s", f, fs[1], fs[3], fs[9]), nil
+			}
+		}
+	}
+	if read == 0 {
+		return "", fmt.Errorf("no /proc/self/net table readable")
+	}
+	return "", nil
 }
 
 func clipS(s string, n int) string {
